@@ -282,14 +282,16 @@ def verify_response(resp, req_id, exp_questions, exp_records, limit, exp_rcode, 
                     return
         viol("name-mismatch", "%s: decoded %s, expected %s" % (what, fmt_labels(got), fmt_labels(want)))
 
-    if lenient_unencodable and tc and (failure is not None or pos != end):
+    more_than_possible = any(len(got_r[s]) > len(exp_by_sec[s]) for s in range(3))
+    if lenient_unencodable and tc and (failure is not None or pos != end or more_than_possible):
         # the reply is not a message at all: whatever the strict decoder trips over first, it is the same defect
         if check_content:
             viol("unencodable-name-reply-counts-describe-absent-records",
                  "a record whose name cannot be encoded (label > 63 or name > 255 bytes) was added; the %d-byte reply has TC set, header counts "
                  "qd=%d an=%d ns=%d ar=%d, but only %d questions and %d records decode (%s at offset %d); the bytes after the last encoded record "
-                 "are not part of any record" % (len(resp), qd, an, ns, ar, len(got_q), info["nrecords"],
-                                                 failure.reason if failure else "trailing-bytes", failure.off if failure else pos))
+                 "are not part of any record added for this request (stale buffer contents, e.g. an earlier reply)"
+                 % (len(resp), qd, an, ns, ar, len(got_q), info["nrecords"],
+                    failure.reason if failure else ("trailing-bytes" if pos != end else "records-nobody-added"), failure.off if failure else pos))
         failure_handled = True
     else:
         failure_handled = False
@@ -354,6 +356,8 @@ def verify_response(resp, req_id, exp_questions, exp_records, limit, exp_rcode, 
                 viol("malformed-response:trailing-bytes", "%d bytes after the last record (response %d bytes)" % (end - pos, end))
 
     if not check_content:
+        # C37 judges header, size and decodability only; whether compression pointers are right is C35's business
+        V[:] = [(k, t) for (k, t) in V if "compression-pointer" not in k]
         info["complete"] = failure is None and not tc
         return V, info
     if failure_handled:
@@ -525,57 +529,64 @@ def c_view(labels):
 
 # ----------------------------------------------------------------------------- trace parsing
 def parse_trace(path):
-    """yields (idx, trace) per case.  trace = dict(ops=[opdict...], live=int|None, stall=bool)
-    opdict = dict(cbs=[cb...], udp=[bytes...], tcp=bytes, teof=bool)
-    cb = dict(transport, flags, questions=[(cname, type, class)], addfail=set(), resp=rc|None, dropped=bool)"""
+    """yields (idx, trace) per case.  trace = dict(ops=[opdict...], live=int|None, stall=bool, done=bool)
+    opdict = dict(cbs=[cb...], udp=[bytes...], tcp=[bytes...], teof=bool)
+    cb = dict(transport, id, flags, questions=[(cname, type, class)], addfail=set(), resp=rc|None, dropped=bool)
+    A process that died mid-case leaves an incomplete (possibly cut) last case: it is yielded with done=False."""
     cur = None
     idx = None
     op = None
     with open(path, "r", errors="replace") as f:
         for ln in f:
-            ln = ln.rstrip("\n")
+            if not ln.endswith("\n"):
+                break               # cut line: the process died here
+            ln = ln[:-1]
             if not ln:
                 continue
             tag, _, rest = ln.partition(" ")
-            if tag == "C":
-                if cur is not None:
+            try:
+                if tag == "C":
+                    if cur is not None:
+                        yield idx, cur
+                    idx = int(rest)
+                    op = dict(cbs=[], udp=[], tcp=[], teof=False)
+                    cur = dict(ops=[], pre=op, live=None, stall=False, done=False)
+                elif cur is None:
+                    continue
+                elif tag == "O":
+                    op = dict(cbs=[], udp=[], tcp=[], teof=False)
+                    cur["ops"].append(op)
+                elif tag == "Q":
+                    t = rest.split(" ")
+                    nq = int(t[3])
+                    qs = []
+                    for i in range(nq):
+                        qs.append((bytes.fromhex(t[4 + 3 * i][1:]), int(t[5 + 3 * i]), int(t[6 + 3 * i])))
+                    op["cbs"].append(dict(transport=t[0], id=int(t[1]), flags=int(t[2], 16), questions=qs, addfail=set(), resp=None, dropped=False))
+                elif tag == "ADDFAIL":
+                    i, rc = rest.split(" ")
+                    op["cbs"][-1]["addfail"].add(int(i))
+                elif tag == "RESP":
+                    op["cbs"][-1]["resp"] = int(rest)
+                elif tag == "DROP":
+                    op["cbs"][-1]["dropped"] = True
+                elif tag == "u":
+                    op["udp"].append(bytes.fromhex(rest))
+                elif tag == "t":
+                    op["tcp"].append(bytes.fromhex(rest))
+                elif tag == "teof" or tag == "terr":
+                    op["teof"] = True
+                elif tag == "STALL":
+                    cur["stall"] = True
+                elif tag == "E":
+                    cur["live"] = int(rest)
+                    cur["done"] = True
                     yield idx, cur
-                idx = int(rest)
-                op = dict(cbs=[], udp=[], tcp=[], teof=False)
-                cur = dict(ops=[], pre=op, live=None, stall=False, done=False)
-            elif cur is None:
-                continue
-            elif tag == "O":
-                op = dict(cbs=[], udp=[], tcp=[], teof=False)
-                cur["ops"].append(op)
-            elif tag == "Q":
-                t = rest.split(" ")
-                nq = int(t[3])
-                qs = []
-                for i in range(nq):
-                    qs.append((bytes.fromhex(t[4 + 3 * i][1:]), int(t[5 + 3 * i]), int(t[6 + 3 * i])))
-                op["cbs"].append(dict(transport=t[0], id=int(t[1]), flags=int(t[2], 16), questions=qs, addfail=set(), resp=None, dropped=False))
-            elif tag == "ADDFAIL":
-                i, rc = rest.split(" ")
-                op["cbs"][-1]["addfail"].add(int(i))
-            elif tag == "RESP":
-                op["cbs"][-1]["resp"] = int(rest)
-            elif tag == "DROP":
-                op["cbs"][-1]["dropped"] = True
-            elif tag == "u":
-                op["udp"].append(bytes.fromhex(rest))
-            elif tag == "t":
-                op["tcp"].append(bytes.fromhex(rest))
-            elif tag == "teof" or tag == "terr":
-                op["teof"] = True
-            elif tag == "STALL":
-                cur["stall"] = True
-            elif tag == "E":
-                cur["live"] = int(rest)
-                cur["done"] = True
-                yield idx, cur
-                cur = None
+                    cur = None
+            except (ValueError, IndexError):
+                break               # garbled line from a dying process
     if cur is not None:
+        cur["done"] = False
         yield idx, cur
 
 
@@ -790,12 +801,9 @@ class Judge:
             self.st("responses_over_512")
         if req["opt_size"] is not None and not info["tc"] and info["size"] > 512:
             self.st("edns_size_used")
-        if act_flags >= 0 and len(resp) >= 4:
-            pass
         return info
 
     def judge_case(self, case, tr):
-        prop = self.prop
         ops = case["ops"]
         if not tr["done"]:
             self.st("cases_incomplete")
